@@ -10,7 +10,8 @@ ID = "C49"
 THEOREMS = ["C49_dowild_total", "C49_dowild_sound_complete", "C49_dowild_codes", "C49_dowild_eq_git",
             "C49_pathname_sound_complete", "C49_pathname_codes", "C49_globmatch_prefix",
             "C49_last_match_wins", "C49_decision_unique", "C49_excluded_parent", "C49_trim_eq_git", "C49_pattern_eq_git_refuted",
-            "C49_names_eq_git_partial", "C49_pattern_eq_git_partial", "C49_pattern_eq_git_positive", "C49_reincluded_ancestor_refuted"]
+            "C49_names_eq_git_partial", "C49_pattern_eq_git_partial", "C49_pattern_eq_git_positive", "C49_pattern_eq_git_modulo_ancestor",
+            "C49_reincluded_ancestor_refuted"]
 MODEL_FILES = ["Gitignore.v"]
 MODELLED = ("plumbing/format/gitignore: pattern.go ParsePattern (with the repaired trimTrailingSpaces), pattern.Match, simpleNameMatch, "
             "globMatch, wildmatch, dowild (all flags, abort codes, bracket loop, matchPOSIXClass), matcher.go matcher.Match, scope.go "
@@ -44,8 +45,8 @@ LEVEL_NOTE = ("trusted: Coq 8.16.1 kernel; the correspondence harness; S is a tr
               "bracket sets with ranges, negation and POSIX classes), and equal to git's dowild there; git's dowild with WM_PATHNAME sound and complete (abort codes included) "
               "for a declarative semantics of slash patterns (segments, */? not crossing slashes, **/); go-git's globMatch = prefix matching of segments on the shapes of the fragment; "
               "the repaired trailing-space rule equals git's; last-match-wins; excluded parent; go-git = git refuted with witnesses "
-              "and proved for ignore files made of name patterns and slash patterns (anchored, inner slashes, **/ groups followed by one segment, no brackets in slash patterns), "
-              "negation included, on every path none of whose ancestor directories is re-included by a negated pattern (that guard is shown necessary)")
+              "and proved for ignore files made of name patterns and slash patterns (anchored, inner slashes, **/ groups followed by one segment), "
+              "negation included, on every path none of whose ancestor directories is re-included by a negated pattern (that guard is shown necessary; without it go-git is exactly git with patterns that also match below what they match)")
 
 # ---------------------------------------------------------------- generators
 
@@ -269,25 +270,25 @@ def gen_frag_pattern(rng, tree, base):
     if form == "name":
         line = frag_seg(rng, rng.choice(p))
     elif form == "anchored1":
-        line = b"/" + frag_seg(rng, p[0], False)
+        line = b"/" + frag_seg(rng, p[0])
     elif form == "inner":
         i = rng.randrange(len(p))
         j = min(len(p), i + rng.randrange(2, 4))
-        segs = [frag_seg(rng, s, False) for s in p[i:j]]
+        segs = [frag_seg(rng, s) for s in p[i:j]]
         if len(segs) < 2:
-            segs.append(frag_seg(rng, rname(rng), False))
+            segs.append(frag_seg(rng, rname(rng)))
         line = (b"/" if rng.random() < 0.4 else b"") + b"/".join(segs)
     elif form == "lead**":
-        line = b"**/" * rng.randrange(1, 3) + frag_seg(rng, rng.choice(p), False)
+        line = b"**/" * rng.randrange(1, 3) + frag_seg(rng, rng.choice(p))
     elif form == "mid**":
         i = rng.randrange(len(p))
-        pre = [frag_seg(rng, s, False) for s in p[:i + 1][-2:]]
-        line = b"/".join(pre) + b"/**/" + frag_seg(rng, rng.choice(p[i:] or p), False)
+        pre = [frag_seg(rng, s) for s in p[:i + 1][-2:]]
+        line = b"/".join(pre) + b"/**/" + frag_seg(rng, rng.choice(p[i:] or p))
     elif form == "multi**":
-        segs = [frag_seg(rng, s, False) for s in (p + p + p)[:3]]
+        segs = [frag_seg(rng, s) for s in (p + p + p)[:3]]
         line = segs[0] + b"/**/" + segs[1] + b"/**/" + segs[2]
     else:
-        line = b"/**/" + frag_seg(rng, rng.choice(p), False)
+        line = b"/**/" + frag_seg(rng, rng.choice(p))
     if rng.random() < 0.25:
         line += b"/"
     if rng.random() < 0.3:
